@@ -143,7 +143,7 @@ def _verdict_use(call, stmt, fd, g):
     if isinstance(stmt, ast.Assign) and stmt.value is call and len(stmt.targets) == 1 and isinstance(stmt.targets[0], ast.Name):
         var = stmt.targets[0].id
         rets = [r for r in walk_no_nested(fd) if isinstance(r, ast.Return)]
-        after = [r for r in rets if r.lineno > stmt.lineno]
+        after = [r for r in rets if r.pos > stmt.pos]
         if after and all(r.value is not None and is_name(r.value, var) for r in after):
             return 'ok'
         return 'verdict bound to `{}` but not returned on every later path'.format(var)
@@ -362,7 +362,7 @@ def _len_before_after(e, fd):
     adds = [c for c in walk_no_nested(fd) if isinstance(c, ast.Call) and isinstance(c.func, ast.Attribute) and c.func.attr == 'add' and dotted(c.func.value) == 'self.seen' and len(c.args) == 1]
     if len(defs) != 1 or len(adds) != 1 or not is_len_seen(defs[0].value):
         return None
-    if not (defs[0].lineno < adds[0].lineno <= e.lineno):
+    if not (defs[0].pos < adds[0].pos <= e.pos):
         return None
     return adds[0].args[0]
 
@@ -692,7 +692,7 @@ def rule_wr_sort(cx, rep, port):
     for r in revs:
         par = _stmt_of(r)
         guard = getattr(par, 'parent', None)
-        if isinstance(guard, ast.If) and dotted(guard.test) == 'self.reverse_sort' and par in guard.body and r.lineno > sc.lineno:
+        if isinstance(guard, ast.If) and dotted(guard.test) == 'self.reverse_sort' and par in guard.body and r.pos > sc.pos:
             ok_rev = True
     rep.decide(ok_rev, _key(c, 'finish') + ' desc', revs[0] if revs else fin, 'DESC reverses the ascending result, only when reverse_sort is set', 'DESC is not "reverse the ascending result when reverse_sort is set"')
     # emission: payload of each entry in order
